@@ -657,7 +657,9 @@ class Lower(object):
 
     def var(self, name, field):
         if name not in self.vars:
-            if field == 'complex':
+            if field == 'int':
+                self.vars[name] = S(z3.Int(name))
+            elif field == 'complex':
                 self.vars[name] = C(S(z3.Real(name + '.re')), S(z3.Real(name + '.im')))
             else:
                 self.vars[name] = S(z3.Real(name))
@@ -665,6 +667,8 @@ class Lower(object):
 
     def __call__(self, v):
         if not isinstance(v, V):
+            if hasattr(v, 'value') and hasattr(v, 'shape'):
+                return v          # a lookup table (npmodel.Table): passed through to pw_apply
             return _sc(v)
         k = id(v)
         if k in self.memo:
@@ -824,4 +828,6 @@ def pw_apply(fn, a):
         return sfun(fn, a[0])
     if fn == 'complex':
         return C(a[0], a[1])
+    if fn == 'lookup':
+        return a[0].value(a[1:])
     raise Unsupported('pointwise function %s' % fn)
